@@ -82,12 +82,16 @@ PROPS["C05"] = dict(
           "is cancelled before and after every k-th resolver call (with earlier resolvers released or held in flight), for "
           "worker_limit 0/1/2/8; the response function must return once all resolvers have, and after the request ended no goroutine "
           "with a gqlgen or generated frame may remain; hang and leak verdicts need a stable goroutine-dump witness (same goroutine "
-          "parked in the same frame in consecutive dumps), a mere timeout is reported as inconclusive (exit 2)",
-    note="cancellation points are exhaustive per operation, operations are sampled; bounded time is only refuted by deadlock witnesses; "
-         "the direct response function reads one payload, like a single-response HTTP transport",
+          "parked in the same frame in consecutive dumps), a mere timeout is reported as inconclusive (exit 2). The same enumeration is run "
+          "(a) with a consumer that reads one payload (single-response transport) and one that drains the response function (streaming "
+          "transport), and (b) through gqlgen's own transports POST, GET, application/graphql, SSE (with and without keep-alive pings) and "
+          "multipart/mixed via handler.Server.ServeHTTP with the request context cancelled at the point: ServeHTTP must return and no "
+          "transport goroutine (keep-alive, aggregator, deferred groups) may survive",
+    note="cancellation points are exhaustive per operation, operations are sampled (probe schema and random schemas drawn for the seed); "
+         "bounded time is only refuted by deadlock witnesses; websocket sessions are covered by C11's end-of-connection invariants, not here",
     technique="fault enumeration over cancellation points of rapid-generated operations; invariant oracle over goroutine dumps",
     rule="evaluation = one execution with one cancellation point; non-trivial = cancellation point k>=1 in an operation with a composite "
-         "list of >=2 elements or with @defer; distinct by (query, plan seed, vector, k, before/after, hold)",
+         "list of >=2 elements or with @defer; distinct by (query, plan seed, vector, k, before/after, hold, consumer) resp. (query, plan seed, vector, transport, k, before/after)",
     assumptions=["universal resolvers return promptly (bounded waits <= 30ms)", "a goroutine parked identically in 3 dumps over 500ms with no resolver running is stuck"],
 )
 
